@@ -479,6 +479,7 @@ def check_c13(chk, args):
     stdlib_cycles(chk)
     aborted_prints(chk)
     overlapping_prints(chk)
+    depth_limited_cycles(chk, graphs)
     chk.cov['traces_validated_against_impl'] = len(cases)
     chk.cov['rule'] = ('rooted directed graphs of list / dict / tuple nodes with 0-2 child slots (node or int leaf): all '
                        'with <= 2 nodes, all/sampled with 3 list-or-dict nodes, random ones up to 10 nodes; unreachable '
@@ -550,6 +551,63 @@ def aborted_prints(chk):
                       'recursion marker although it contains no cycle: %r' % (again,), {'output': again})
     chk.cov['evaluations'] += n + 2
     chk.stage('aborted-prints', prints=n + 2)
+
+
+def depth_limited_cycles(chk, graphs):
+    """Cycles x the depth limit: with depth=d the recursion markers of the unlimited print that sit inside at most d
+    containers are all there, in order, and no others (a back-reference AT the cut level is still 'reached again
+    while being printed': it is a marker, not a placeholder); printing terminates."""
+    import re
+    mark = re.compile(r'<Recursion on \w+ with id=\d+>')
+
+    def markers(text):
+        out, level, i = [], 0, 0
+        for m in mark.finditer(text):
+            seg = text[i:m.start()]
+            level += sum(seg.count(c) for c in '[({') - sum(seg.count(c) for c in '])}')
+            out.append((level, m.group(0)))
+            i = m.end()
+        return out
+    q = chk.tier == 'quick'
+    n = 0
+    picked = 0
+    for g, r in graphs:
+        if picked >= (400 if q else 6000) or common.give_up():
+            break
+        objs = build(g)
+        root = wrap(g, r, objs[r - 1])
+        try:
+            with warnings.catch_warnings():
+                warnings.simplefilter('ignore')
+                with common.time_limit(20):
+                    full = P.pformat(root, width=79)
+        except (Exception, common.Timeout):
+            continue                      # reported by the main loop
+        ms = markers(full)
+        if not ms:
+            continue
+        picked += 1
+        for d in (1, 2, 3, 4):
+            n += 1
+            desc = {'graph': g, 'root': r, 'depth': d, 'unlimited_output': full[:600]}
+            try:
+                with warnings.catch_warnings():
+                    warnings.simplefilter('ignore')
+                    with common.time_limit(20):
+                        out = P.pformat(root, width=79, depth=d)
+            except (Exception, common.Timeout) as e:  # noqa
+                chk.violation('C13.terminates', 'printing the object graph %r with depth=%d raised / did not terminate: %r'
+                              % (g, d, e), desc)
+                continue
+            want = [t for lv, t in ms if lv <= d]
+            got = [t for _, t in markers(out)]
+            if got != want:
+                chk.violation('C13.unfold', 'with depth=%d the recursion markers are %r; those of the unlimited print nested in '
+                              'at most %d containers are %r (graph %r, output %r)' % (d, got, d, want, g, out[:300]),
+                              dict(desc, output=out))
+            chk.nontrivial(('depth-cycle', repr(g), d))
+    chk.cov['evaluations'] += n
+    chk.stage('depth-limited-cycles', prints=n)
 
 
 def overlapping_prints(chk):
@@ -706,7 +764,10 @@ def stdlib_cycles(chk):
 
 # ---------------------------------------------------------------------------
 
-EXCS = [ValueError, TypeError, KeyError, AttributeError, RuntimeError, ZeroDivisionError, AssertionError, MyError]
+# every one of them is an Exception subclass - also the ones that signal exhausted resources, end of iteration, the OS
+EXCS = [ValueError, TypeError, KeyError, AttributeError, RuntimeError, ZeroDivisionError, AssertionError, MyError,
+        RecursionError, MemoryError, StopIteration, OSError, NotImplementedError, UnicodeError, LookupError, EOFError,
+        ImportError, BufferError, StopAsyncIteration, ArithmeticError]
 
 
 def tree_universe(chk):
